@@ -268,6 +268,59 @@ func RunConfig(c *Ctx) error {
 		}
 		c.Tr.Emit("CfgRoundTrip", world.F{"ok": ok, "diff": diff + " (zero value of " + l.path + ")"})
 	}
+	// ... and of configurations in which one option at a time holds a value at the edge of its type's range or
+	// granularity (a nanosecond, a fraction of a millisecond, hours + nanoseconds; large and tiny numbers; text
+	// that needs quoting in YAML)
+	for _, l := range leaves {
+		var vals []reflect.Value
+		switch l.kind {
+		case "duration":
+			for _, d := range []time.Duration{1, 999 * time.Microsecond, 1500 * time.Microsecond, 333333333, time.Hour + time.Minute + time.Second + 1, 100*time.Millisecond + 1, 2562047 * time.Hour} {
+				vals = append(vals, reflect.ValueOf(config.DurationWrapper{Duration: d}))
+			}
+		case "uint":
+			for _, u := range []uint64{1, 1<<31 - 1, 1<<32 + 1} {
+				vals = append(vals, reflect.ValueOf(u))
+			}
+		case "int":
+			for _, i := range []int64{1, -1, 1<<31 - 1} {
+				vals = append(vals, reflect.ValueOf(i))
+			}
+		case "float":
+			for _, f := range []float64{0.1, 1e-9, 123456789.125, 1e18} {
+				vals = append(vals, reflect.ValueOf(f))
+			}
+		case "string":
+			for _, t := range []string{"a: b", "# not a comment", "'single' \"double\"", " leading and trailing ", "true", "0123", "null", "multi word value", "ünï/cødé:26657"} {
+				vals = append(vals, reflect.ValueOf(t))
+			}
+		}
+		for _, val := range vals {
+			removeFile()
+			one := config.DefaultConfig
+			if one.Instrumentation != nil {
+				cp := *one.Instrumentation
+				one.Instrumentation = &cp
+			}
+			v := leafValue(&one, l)
+			if !val.Type().ConvertibleTo(v.Type()) {
+				continue
+			}
+			v.Set(val.Convert(v.Type()))
+			ok := writeFile(one) == nil
+			diff := ""
+			if ok {
+				back, err := load(nil)
+				ok = err == nil
+				for _, l2 := range leaves {
+					if ok && leafString(&back, l2) != leafString(&one, l2) {
+						ok, diff = false, l2.path
+					}
+				}
+			}
+			c.Tr.Emit("CfgRoundTrip", world.F{"ok": ok, "diff": diff + " (" + l.path + " = " + leafString(&one, l) + ")"})
+		}
+	}
 	removeFile()
 	// the same command object loads, the file is rewritten (every option changed), the same command loads again:
 	// the second result is what the second file says (a node that re-reads its configuration, an init followed by
